@@ -102,6 +102,13 @@ func runHammer(c HammerCase, st kvs.Storage) *vstat.Violation {
 	}
 	wins := make([]atomic.Int32, c.Rounds)
 	vers := make([]atomic.Value, c.Rounds+1)
+	if c.Kind == "expired" {
+		past := time.Now().Add(-time.Hour)
+		for r := 0; r < c.Rounds; r++ {
+			st.PutMany(ctx, []kvs.Record{{Key: fmt.Sprintf("he%d-a", r), Value: []byte("x"), ExpiresAt: &past}, {Key: fmt.Sprintf("he%d-b", r), Value: []byte("x"), ExpiresAt: &past},
+				{Key: fmt.Sprintf("he%d-live", r), Value: []byte("y")}})
+		}
+	}
 	if c.Kind == "cas" {
 		r, err := st.Put(ctx, kvs.Record{Key: "hammer", Value: []byte("0")})
 		if err != nil {
@@ -124,6 +131,40 @@ func runHammer(c HammerCase, st kvs.Storage) *vstat.Violation {
 					return
 				}
 				switch c.Kind {
+				case "expired":
+					// every thread meets the same born-expired records at the same moment (whoever is first clears them away):
+					// all of them must find the keys absent, and a fresh record next to them must be found by all
+					keys := []string{fmt.Sprintf("he%d-a", r), fmt.Sprintf("he%d-b", r), fmt.Sprintf("he%d-live", r)}
+					var err error
+					switch (ti + r) % 3 {
+					case 0:
+						_, err = st.Get(octx, keys[0])
+						if err == nil || !gerrors.Is(err, gerrors.ErrNotExist) {
+							fail(vstat.V(c.Backend+":expired-record-visible", "round %d: Get of a record written already expired returned %v", r, err))
+						}
+					case 1:
+						var rs []*kvs.Record
+						rs, err = st.GetMany(octx, keys...)
+						if err != nil || len(rs) != 3 || rs[0] != nil || rs[1] != nil || rs[2] == nil {
+							fail(vstat.V(c.Backend+":expired-record-visible", "round %d: GetMany over two born-expired records and a live one returned %v (err %v)", r, rs, err))
+						}
+					default:
+						var it iterable.Iterator[string]
+						it, err = st.ListKeys(octx, fmt.Sprintf("he%d-*", r))
+						if err == nil {
+							n := 0
+							for it.HasNext() {
+								if k, ok := it.Next(); ok && k != keys[2] {
+									fail(vstat.V(c.Backend+":expired-record-visible", "round %d: ListKeys lists %q, a record written already expired", r, k))
+								}
+								n++
+							}
+							it.Close()
+							if n != 1 {
+								fail(vstat.V(c.Backend+":list-keys", "round %d: ListKeys found %d keys, want the one live key", r, n))
+							}
+						}
+					}
 				case "create":
 					key := fmt.Sprintf("hk%d", r)
 					_, err := st.Create(octx, kvs.Record{Key: key, Value: []byte{byte(ti)}})
@@ -197,13 +238,17 @@ func TestC02Hammer(t *testing.T) {
 	rapid.Check(t, func(rt *rapid.T) {
 		c := HammerCase{
 			Backend: rapid.SampledFrom([]string{"inmem", "inmem", "inmem", "redis"}).Draw(rt, "backend"),
-			Kind:    rapid.SampledFrom([]string{"create", "create", "cas"}).Draw(rt, "kind"),
+			Kind:    rapid.SampledFrom([]string{"create", "create", "cas", "expired"}).Draw(rt, "kind"),
 			Threads: rapid.IntRange(2, 8).Draw(rt, "threads"),
 			Yield:   rapid.Bool().Draw(rt, "yield"),
 		}
 		c.Rounds = rapid.IntRange(200, vstat.Pick(1500, 4000)).Draw(rt, "rounds")
 		if c.Backend == "redis" {
 			c.Rounds = rapid.IntRange(20, vstat.Pick(150, 500)).Draw(rt, "redisRounds")
+		}
+		if c.Kind == "expired" {
+			c.Backend = "inmem" // Redis has no "already expired" write
+			c.Rounds = min(c.Rounds, 600)
 		}
 		if budget.spent("C02") {
 			return
